@@ -658,7 +658,8 @@ pub fn run_c12_one(tier: &str, rng: &mut Rng, model: &Model, rep: &mut Report, c
     let n = if tier == "thorough" { 12_000 } else { 1_200 };
     for _ in 0..n {
         let k = if rng.chance(1, 5) { rng.range(1, kmax as u64) } else { rng.range(1, 4) };
-        let sz = *rng.pick(&[1u64, 2, 3, 9, 16, 25, 49, 1000, 1 << 20]);
+        // sizes whose odd part is large: an end point S*(2X+1)/2^(k+1) then needs more than 24 significant bits
+        let sz = *rng.pick(&[1u64, 2, 3, 9, 16, 25, 49, 1000, 1 << 20, (1 << 20) - 1, 1_000_001, 999_983, 65_795, 541_201, 3 * 65_537]);
         let (s, tag) = gen::sequence(rng, &[k as usize, 4 * k as usize], 300);
         let mut c = Case::new("oligocgr", &[k, sz, rng.below(2)], &s, tag);
         c.info = s.iter().any(|&b| b < 4);
